@@ -118,6 +118,7 @@ type real struct {
 	pids        map[string]*pidInfo // PullID subscriptions, by name
 	panicked    string              // construction panicked (Cfg.Res with an initial record id given twice)
 	arena                           // how option slices are handed to the calls (common_arena.go)
+	nestedOut   []string            // results of the calls made from a callback of the write in progress (nested.go)
 }
 
 // pidInfo: a PullID subscription is observed together with a hidden plain Pull with the same options
@@ -672,6 +673,9 @@ func (r *real) runWrite(o Op) (answer string, sends int) {
 		_, pmsg = lib.Catch(func() {
 			ws := r.viewW(o, cb)
 			defer r.checkW(o)
+			if o.Site != "" {
+				ws = r.nestedOptions(o, cb)
+			}
 			switch o.Op {
 			case "upd":
 				val, err = r.coll.Update(o.ID, parseMsg(o.Msg), ws...)
@@ -737,11 +741,15 @@ loop:
 		// caused is observable (yield point bus.send.afterSnapshot)
 		evText = fmt.Sprintf("#%d", sends)
 	}
-	if r.val != nil {
-		return fmt.Sprintf("val=%s err=%s ev=%s", showMsg(val), codeName(err), evText), sends
+	in := ""
+	if o.Site != "" {
+		in = " in=" + showList(r.nestedOut)
 	}
-	return fmt.Sprintf("val=%s err=%s ev=%s ids=%s created=%d", showMsg(val), codeName(err), evText,
-		showList(cb.ids), cb.created), sends
+	if r.val != nil {
+		return fmt.Sprintf("val=%s err=%s ev=%s%s", showMsg(val), codeName(err), evText, in), sends
+	}
+	return fmt.Sprintf("val=%s err=%s ev=%s ids=%s created=%d%s", showMsg(val), codeName(err), evText,
+		showList(cb.ids), cb.created, in), sends
 }
 
 // dump renders the contents with ids and stored change times, read through the seed of a fresh
